@@ -13,6 +13,7 @@ import (
 	"fmt"
 	"io"
 	"path/filepath"
+	"time"
 
 	"github.com/algorand/go-algorand/agreement"
 	"github.com/algorand/go-algorand/config"
@@ -49,6 +50,60 @@ func cpAddBlock(b *hlSim, blk bookkeeping.Block) error {
 	}
 	b.tr("block %d", blk.Round())
 	return nil
+}
+
+// cpFlush commits everything eligible through the ledger's own commit queue (the single
+// commitSyncer goroutine), the way upstream's testCatchpointFlushRound does. hlSim.flush calls
+// trackerRegistry.commitRound directly, which is only sound while the background syncer never
+// schedules a commit on its own; with catchpoint tracking it does so at every first/second stage
+// round and two concurrent commitRound calls are not a schedule a node can produce.
+func cpFlush(s *hlSim) basics.Round {
+	l := s.l
+	for i := 0; i < 64; i++ {
+		l.WaitForCommit(l.Latest())
+		before := l.LatestTrackerCommitted()
+		l.trackers.mu.Lock()
+		l.trackers.lastFlushTime = time.Time{}
+		l.trackers.mu.Unlock()
+		r, _ := l.LatestCommitted()
+		l.trackerMu.Lock()
+		l.trackers.committedUpTo(r)
+		l.trackers.waitAccountsWriting()
+		l.trackerMu.Unlock()
+		if l.LatestTrackerCommitted() == before {
+			break
+		}
+	}
+	s.tr("flush -> dbRound %d (latest %d)", l.LatestTrackerCommitted(), l.Latest())
+	return l.LatestTrackerCommitted()
+}
+
+// cpScheduleAction is hlSim.scheduleAction with cpFlush as the forced commit.
+func cpScheduleAction(s *hlSim) string {
+	switch s.r.Pick([]int{40, 20, 14, 6, 5, 5, 10}) {
+	case 0:
+		return "none"
+	case 1:
+		s.waitBlockQueue()
+		return "wait-bq"
+	case 2:
+		cpFlush(s)
+		return "flush"
+	case 3:
+		s.settle()
+		s.l.FlushCaches()
+		s.tr("flush-caches")
+		return "flush-caches"
+	case 4:
+		s.reload()
+		return "reload"
+	case 5:
+		s.reopen()
+		return "reopen"
+	default:
+		s.settle()
+		return "settle"
+	}
 }
 
 // ---- catchpoint parameters ------------------------------------------------------------------
